@@ -1407,6 +1407,13 @@ func (l *Loop) decodeCompressed(d *decoder, snapLevel int) {
 			return
 		}
 		l.subregionBound = ExpandForSubregions(l.bound)
+		if nvertices == 0 {
+			// As in the branch below and in decode: a loop without vertices
+			// is the empty loop, whatever bound the encoding claims.
+			depth := l.depth
+			l.initBound()
+			l.depth = depth
+		}
 	} else {
 		l.initBound()
 	}
